@@ -40,9 +40,13 @@ const (
 	opTimerStop
 	opEnv // environment operation with an enabledness guard
 	opYield
+	opLock
+	opUnlock
+	opRLock
+	opRUnlock
 )
 
-var opNames = [...]string{"start", "resume", "send", "recv", "close", "select", "wgwait", "spawn", "poolget", "poolput", "timernew", "timerstop", "env", "yield"}
+var opNames = [...]string{"start", "resume", "send", "recv", "close", "select", "wgwait", "spawn", "poolget", "poolput", "timernew", "timerstop", "env", "yield", "lock", "unlock", "rlock", "runlock"}
 
 type chanModel struct {
 	id     int
@@ -62,6 +66,12 @@ type timerModel struct {
 	ch     *chanModel
 }
 
+type lockModel struct {
+	id      int
+	writer  bool
+	readers int
+}
+
 type selCase struct {
 	ch *chanModel // nil = nil channel (never ready)
 }
@@ -77,6 +87,7 @@ type op struct {
 	env   *EnvOp
 	fn    func()
 	tm    *timerModel
+	mu    any // *sync.Mutex or *sync.RWMutex (identity)
 	// results
 	rval  any
 	rok   bool
@@ -141,6 +152,8 @@ type Sched struct {
 	pools    map[*sync.Pool][]any
 	poolIDs  map[*sync.Pool]int
 	timers   []*timerModel
+	locks    map[any]*lockModel
+	lockList []*lockModel
 	timerOf  map[*time.Timer]*timerModel
 	now      time.Time
 	cur      *thread
@@ -394,6 +407,62 @@ func PoolPut(p *sync.Pool, x any) {
 	s.submit(&op{kind: opPoolPut, pool: p, val: x})
 }
 
+func (s *Sched) lock(m any) *lockModel {
+	l := s.locks[m]
+	if l == nil {
+		l = &lockModel{id: len(s.lockList)}
+		s.locks[m] = l
+		s.lockList = append(s.lockList, l)
+	}
+	return l
+}
+
+// Lock is m.Lock() for *sync.Mutex and *sync.RWMutex.
+func Lock(m sync.Locker) {
+	s := Cur
+	if s == nil {
+		m.Lock()
+		return
+	}
+	s.submit(&op{kind: opLock, mu: m})
+}
+
+// Unlock is m.Unlock().
+func Unlock(m sync.Locker) {
+	s := Cur
+	if s == nil {
+		m.Unlock()
+		return
+	}
+	if s.cur.killed {
+		return
+	}
+	s.submit(&op{kind: opUnlock, mu: m})
+}
+
+// RLock is m.RLock().
+func RLock(m *sync.RWMutex) {
+	s := Cur
+	if s == nil {
+		m.RLock()
+		return
+	}
+	s.submit(&op{kind: opRLock, mu: sync.Locker(m)})
+}
+
+// RUnlock is m.RUnlock().
+func RUnlock(m *sync.RWMutex) {
+	s := Cur
+	if s == nil {
+		m.RUnlock()
+		return
+	}
+	if s.cur.killed {
+		return
+	}
+	s.submit(&op{kind: opRUnlock, mu: sync.Locker(m)})
+}
+
 // NewTimer is time.NewTimer(d): a real timer that never fires natively; the
 // model timer fires when the scheduler chooses so.
 func NewTimer(d time.Duration) *time.Timer {
@@ -471,7 +540,7 @@ func Yield() {
 // alternative 0.
 func New(choices []int, horizon int) *Sched {
 	return &Sched{chans: map[uintptr]*chanModel{}, wgs: map[*sync.WaitGroup]int{}, wgIDs: map[*sync.WaitGroup]int{}, pools: map[*sync.Pool][]any{}, poolIDs: map[*sync.Pool]int{},
-		timerOf: map[*time.Timer]*timerModel{}, yield: make(chan *thread), choices: choices, horizon: horizon, now: time.Unix(1_000_000, 0)}
+		timerOf: map[*time.Timer]*timerModel{}, locks: map[any]*lockModel{}, yield: make(chan *thread), choices: choices, horizon: horizon, now: time.Unix(1_000_000, 0)}
 }
 
 func (s *Sched) spawn(name string, f func()) *thread {
@@ -549,6 +618,13 @@ func (s *Sched) enabled(t *thread) bool {
 		return s.wgs[o.wg] == 0
 	case opEnv:
 		return o.env.Enabled == nil || o.env.Enabled()
+	case opLock:
+		l := s.lock(o.mu)
+		return !l.writer && l.readers == 0
+	case opRLock:
+		return !s.lock(o.mu).writer
+	case opUnlock, opRUnlock:
+		return true
 	}
 	return false
 }
@@ -651,6 +727,30 @@ func (s *Sched) perform(t *thread, alt int) {
 		o.env.Alt = alt
 		o.rval = o.env.Do()
 		t.obs = fold(t.obs, "env", o.env.Name, valKey(o.rval))
+	case opLock:
+		s.lock(o.mu).writer = true
+		t.obs = fold(t.obs, "lock", s.lock(o.mu).id)
+	case opUnlock:
+		l := s.lock(o.mu)
+		if !l.writer {
+			t.killed = true
+			t.panicV = "unlock of unlocked mutex"
+			return
+		}
+		l.writer = false
+		t.obs = fold(t.obs, "unlock", l.id)
+	case opRLock:
+		s.lock(o.mu).readers++
+		t.obs = fold(t.obs, "rlock", s.lock(o.mu).id)
+	case opRUnlock:
+		l := s.lock(o.mu)
+		if l.readers == 0 {
+			t.killed = true
+			t.panicV = "RUnlock of unlocked RWMutex"
+			return
+		}
+		l.readers--
+		t.obs = fold(t.obs, "runlock", l.id)
 	case opStart, opResume, opYield:
 	}
 }
@@ -717,6 +817,9 @@ func (s *Sched) stateKey() uint64 {
 	sb.WriteString(strings.Join(ps, ";"))
 	for _, tm := range s.timers {
 		fmt.Fprintf(&sb, "M%d:%v:%v;", tm.id, tm.active, tm.fired)
+	}
+	for _, l := range s.lockList {
+		fmt.Fprintf(&sb, "L%d:%v:%d;", l.id, l.writer, l.readers)
 	}
 	fmt.Fprintf(&sb, "now%d;", s.now.UnixNano())
 	if s.cur != nil {
